@@ -463,3 +463,8 @@ func TestMigrationSubstitutions(t *testing.T) {
 		},
 	})
 }
+
+// FuzzGenParse: the structured generator driven by Go's coverage-guided fuzzer (thorough tier).
+func FuzzGenParse(f *testing.F) {
+	h.FuzzSub(f, h.Sub[parseCase]{Prop: "C19", Name: "parse-strict", Gen: genParse, Check: checkParse})
+}
